@@ -47,7 +47,7 @@ def _w(inputs):
 
 def gen_leaf(rng, kinds=('sel', 'mut', 'rec'), allow_swap=True):
     k = rng.choice(kinds)
-    seed = rng.randint(0, 10 ** 6)
+    seed = searchlib.gen_seed(rng)
     if k == 'sel':
         n = rng.choice([1, 2, 3, 0.5, 1.0, None, 0])
         name = rng.choice(['Random', 'Random', 'Sample', 'Proportional', 'Top', 'Bottom',
@@ -95,7 +95,7 @@ def gen_expr(rng, depth=0, want='dna'):
         return {'c': '~', 'a': gen_expr(rng, depth + 1, 'sel')}
     if c == 'with_prob':
         return {'c': 'with_prob', 'a': gen_expr(rng, depth + 1, want),
-                'p': rng.choice([0.0, 0.5, 1.0]), 'seed': rng.randint(0, 10 ** 6)}
+                'p': rng.choice([0.0, 0.5, 1.0]), 'seed': searchlib.gen_seed(rng)}
     if c == 'if_true':
         return {'c': 'if_true', 'a': gen_expr(rng, depth + 1, want), 'min_len': rng.randint(0, 3)}
     return {'c': 'until_change', 'a': gen_expr(rng, depth + 1, want), 'max': rng.randint(1, 3)}
@@ -215,7 +215,7 @@ def gen_case(streams: Streams, tier: str, prop='C14') -> dict:
     mx = streams.get('matrix')
     names = ['m.Uniform', 'm.Swap', 'r.Uniform', 'r.Sample', 'r.Average', 'r.WeightedAverage',
              'r.KPoint', 'r.Segmented', 'r.PartiallyMapped', 'r.Order', 'r.Cycle']
-    matrix = [[n, mx.randint(0, 10 ** 6)] for n in mx.sample(names, 5)]
+    matrix = [[n, searchlib.gen_seed(mx)] for n in mx.sample(names, 5)]
     return {'prop': prop, 'space': space, 'pop': pop, 'matrix': matrix,
             'matrix_m': mx.randint(2, 5),
             'gens': cfg.randint(3, 8 if tier == 'quick' else 30),
@@ -628,6 +628,16 @@ def _must_not_raise(d, err):
         return False        # empty input / zero output count
     if d['op'] == 'Random' and isinstance(err, (ValueError, IndexError)):
         return False
+    if d['op'] in ('r.KPoint', 'r.Segmented'):
+        # segment-wise crossover is partial today: on conditional / nested spaces it
+        # fails in these three ways on the unchanged tree (observed, see DESIGN 12.4).
+        # Any other failure on valid parents - e.g. children that violate a
+        # constraint of the space - is a violation.
+        msg = str(err)
+        known = (isinstance(err, ValueError) and 'should be either an integer, a float' in msg) \
+            or (isinstance(err, TypeError) and "'<' not supported between instances" in msg) \
+            or isinstance(err, AssertionError)
+        return not known
     return d['op'] in _TOTAL_OPS
 
 
